@@ -171,7 +171,8 @@ Definition err_name (e : lerr) : string :=
   | EInvalidFrontendConfig => "InvalidFrontendConfig" | EInvalidAlpn => "InvalidAlpnProtocol"
   | EDisableHttp11 => "DisableHttp11WithHttp11Alpn" | EBufferSize => "BufferSizeTooSmallForH2"
   | EHstsEnabledRequired => "HstsEnabledRequired" | EHstsOnPlainHttp => "HstsOnPlainHttp" | EFileRead => "FileRead"
-  | EInvalidHealthCheck => "InvalidHealthCheck"
+  | EInvalidHealthCheck => "InvalidHealthCheck" | EDuplicateFrontend => "DuplicateFrontend"
+  | EDuplicateBackend => "DuplicateBackend"
   end.
 
 Fixpoint msg_recs (rs : list request) (ds : list dres) : list (list tok) :=
